@@ -134,6 +134,6 @@ def valid(case):
 
 
 def phases(tier):
-    n = {"quick": 16 * 1500, "thorough": 16 * 20000}[tier]
+    n = {"quick": 16 * 1200, "thorough": 16 * 20000}[tier]
     return [dict(name="sweep", kind="enumerate", cases=sweep_cases, check=check),
             dict(name="main", kind="hypothesis", strategy=cases(tier), check=check, examples=n)]
